@@ -345,6 +345,111 @@ theorem select_outcome_is_spec {kinds : List Kind} {pre : List Act} {sc : Script
     · exact absurd (by simp [St.events, h']) hfuel
   exact outcome_of_pc p1 hi hexit (fun c hh => hrej c (by simp [St.events, hh])) c
 
+/-- **Agreement, poll (class P).** -/
+theorem poll_outcome_is_spec {kinds : List Kind} {pre : List Act} {sc : Script} (hp : ClassP pre sc)
+    (hints : Nat) (legacy lsel cfd : Bool) (fuel : Nat)
+    (hfuel : Ev.fuel ∉ (scenario .poll hints legacy kinds pre sc fuel lsel cfd).events)
+    (hrej : ∀ c, Ev.addRej c ∉ (scenario .poll hints legacy kinds pre sc fuel lsel cfd).events) (c : Nat) :
+    outcome (scenario .poll hints legacy kinds pre sc fuel lsel cfd) c = specOutcome kinds pre sc c := by
+  rw [outcome_run]
+  rw [run_events] at hfuel hrej
+  have p0 := pre_pc (kinds := kinds) hp .poll hints legacy lsel cfd
+  have v0 : PInv (runActs pre (initSt .poll hints legacy kinds lsel cfd)) :=
+    runActs_pinv pre ⟨rfl, by simp [initSt], by simp [initSt], by simp [initSt, NoLost]⟩
+  have i0 : Inv none (runActs pre (initSt .poll hints legacy kinds lsel cfd)) :=
+    runActs_inv pre (initSt_inv _ _ _ _ _ _)
+  have hi := loopEnd_inv .poll hints legacy kinds pre sc fuel lsel cfd
+  have hloop : loopEnd .poll hints legacy kinds pre sc fuel lsel cfd =
+      pollLoop sc fuel (runActs pre (initSt .poll hints legacy kinds lsel cfd)) := by
+    unfold loopEnd backendRun; rw [v0.backend]
+  obtain ⟨p1, hend⟩ := pollLoop_pc hp fuel p0 v0 i0
+  rw [← hloop] at p1 hend
+  have hexit : (loopEnd .poll hints legacy kinds pre sc fuel lsel cfd).toExit = 1 := by
+    rcases hend with h' | h'
+    · exact h'
+    · exact absurd (by simp [St.events, h']) hfuel
+  exact outcome_of_pc p1 hi hexit (fun c hh => hrej c (by simp [St.events, hh])) c
+
+/-- **Agreement, epoll (class P).** -/
+theorem epoll_outcome_is_spec {kinds : List Kind} {pre : List Act} {sc : Script} (hp : ClassP pre sc)
+    (hints : Nat) (legacy lsel cfd : Bool) (fuel : Nat)
+    (hfuel : Ev.fuel ∉ (scenario .epoll hints legacy kinds pre sc fuel lsel cfd).events)
+    (hrej : ∀ c, Ev.addRej c ∉ (scenario .epoll hints legacy kinds pre sc fuel lsel cfd).events) (c : Nat) :
+    outcome (scenario .epoll hints legacy kinds pre sc fuel lsel cfd) c = specOutcome kinds pre sc c := by
+  rw [outcome_run]
+  rw [run_events] at hfuel hrej
+  have p0 := pre_pc (kinds := kinds) hp .epoll hints legacy lsel cfd
+  have e00 : EInv none [] (initSt .epoll hints legacy kinds lsel cfd) :=
+    ⟨rfl, by simp [initSt], by simp [initSt], by intro c; simp [initSt, HupEof], by simp [initSt, NoLost]⟩
+  have e0 : EInv none [] (runActs pre (initSt .epoll hints legacy kinds lsel cfd)) := runActs_einv pre e00
+  have i0 : Inv none (runActs pre (initSt .epoll hints legacy kinds lsel cfd)) :=
+    runActs_inv pre (initSt_inv _ _ _ _ _ _)
+  have hi := loopEnd_inv .epoll hints legacy kinds pre sc fuel lsel cfd
+  have hloop : loopEnd .epoll hints legacy kinds pre sc fuel lsel cfd =
+      epLoop sc fuel (epStart (runActs pre (initSt .epoll hints legacy kinds lsel cfd))) := by
+    unfold loopEnd backendRun; rw [e0.backend]
+  have ps : PC none kinds pre sc (epStart (runActs pre (initSt .epoll hints legacy kinds lsel cfd))) := by
+    unfold epStart
+    simp only []
+    split
+    · obtain ⟨a1, a2, a3, a4, a5, a6, a7, a8⟩ := armSig_same
+        { runActs pre (initSt .epoll hints legacy kinds lsel cfd) with epSig := true }
+      exact p0.congr a1 a2 a3 a4 a5 a6 a7 a8
+    · exact p0.congr rfl rfl rfl rfl rfl rfl rfl rfl
+  obtain ⟨p1, hend⟩ := epLoop_pc hp fuel ps (epStart_einv e0) (epStart_inv i0)
+  rw [← hloop] at p1 hend
+  have hexit : (loopEnd .epoll hints legacy kinds pre sc fuel lsel cfd).toExit = 1 := by
+    rcases hend with h' | h'
+    · exact h'
+    · exact absurd (by simp [St.events, h']) hfuel
+  exact outcome_of_pc p1 hi hexit (fun c hh => hrej c (by simp [St.events, hh])) c
+
+/-- **Agreement (clause 3 of the property), class P.** For every externally driven draining
+script — read callbacks drain and perform no actions, peers act before the run or while the loop
+sleeps, every `hints_max_fd`, pool on or off, close callback closing the descriptor or not — on
+which no add was rejected for capacity and every run finished, select, poll and epoll give every
+context the same outcome: the same number of bytes offered to its read callback (hence, the
+stream being fixed, the same bytes) and the same fate (closed / cleared / never registered).
+`_partial`: scripts whose callbacks act (add, shut down, wake, exit from inside callbacks) are
+outside class P; for them agreement is checked on the three real back-ends by the differential
+run of checks/C13 (classes Q and R there), not proved. -/
+theorem backends_agree_partial {kinds : List Kind} {pre : List Act} {sc : Script} (hp : ClassP pre sc)
+    (hints : Nat) (legacy cfd : Bool) (fuel : Nat) (b1 b2 : Backend)
+    (hfuel : ∀ b, Ev.fuel ∉ (scenario b hints legacy kinds pre sc fuel false cfd).events)
+    (hrej : ∀ b c, Ev.addRej c ∉ (scenario b hints legacy kinds pre sc fuel false cfd).events) (c : Nat) :
+    outcome (scenario b1 hints legacy kinds pre sc fuel false cfd) c =
+    outcome (scenario b2 hints legacy kinds pre sc fuel false cfd) c := by
+  have key : ∀ b, outcome (scenario b hints legacy kinds pre sc fuel false cfd) c = specOutcome kinds pre sc c := by
+    intro b
+    cases b with
+    | select => exact select_outcome_is_spec hp hints legacy cfd fuel (hfuel _) (hrej _) c
+    | poll => exact poll_outcome_is_spec hp hints legacy false cfd fuel (hfuel _) (hrej _) c
+    | epoll => exact epoll_outcome_is_spec hp hints legacy false cfd fuel (hfuel _) (hrej _) c
+  rw [key b1, key b2]
+
+/-- non-vacuity of class P: a script with three scripted sleeps on which all three back-ends
+finish, accept every add and deliver bytes / close / clear -/
+def classPScript : Script :=
+  { onRead := fun _ _ _ => [], onClose := fun _ => [], onWake := fun _ => [],
+    onIdle := fun k => if k = 0 then [.write 0 5, .write 1 2] else if k = 1 then [.pclose 0, .write 2 7]
+      else [.hclose 2],
+    nIdle := 3, rmode := fun _ => .all }
+
+example : ClassP [.add 0, .add 1, .write 1 4, .add 2] classPScript :=
+  ⟨fun _ => rfl, fun _ _ _ => rfl, fun _ => rfl, fun _ => rfl,
+   by intro k a ha; simp only [classPScript] at ha; split at ha
+      · simp at ha; rcases ha with rfl | rfl <;> rfl
+      · split at ha
+        · simp at ha; rcases ha with rfl | rfl <;> rfl
+        · simp at ha; subst ha; rfl,
+   by intro a ha; simp at ha; rcases ha with rfl | rfl | rfl | rfl <;> rfl⟩
+
+example : ∀ b : Backend,
+    outcomes (scenario b 4 false [.pipe, .sock, .tcp] [.add 0, .add 1, .write 1 4, .add 2] classPScript 100) =
+      [(5, .closed), (6, .cleared), (7, .closed)] ∧
+    Ev.fuel ∉ (scenario b 4 false [.pipe, .sock, .tcp] [.add 0, .add 1, .write 1 4, .add 2] classPScript 100).events := by
+  intro b; cases b <;> decide
+
 /-! ### clause 4: adding, rejecting and removing a context never disturbs the others -/
 
 /-- **Isolation, rejected add** (poll, `nfd == capacity`): nothing but the answer is changed —
